@@ -8,7 +8,9 @@ import (
 	"fmt"
 	"io"
 	"net"
+	"strings"
 	"sync"
+	"sync/atomic"
 	"syscall"
 	"testing"
 	"time"
@@ -255,6 +257,24 @@ func c09Check(c c09Case) *kit.Verdict {
 		at  time.Time
 	}
 	och := make(chan outcome, 1)
+	// scheduler lateness during the probe (worst oversleep of a 2 ms sleep)
+	var worstLate int64
+	jstop := make(chan struct{})
+	defer close(jstop)
+	go func() {
+		for {
+			select {
+			case <-jstop:
+				return
+			default:
+			}
+			t0 := time.Now()
+			time.Sleep(2 * time.Millisecond)
+			if late := int64(time.Since(t0) - 2*time.Millisecond); late > atomic.LoadInt64(&worstLate) {
+				atomic.StoreInt64(&worstLate, late)
+			}
+		}
+	}()
 	start := time.Now()
 	go func() {
 		res, err := s.Scan(ctx, req)
@@ -287,6 +307,18 @@ func c09Check(c c09Case) *kit.Verdict {
 	}
 	// delivery is certain when the server read the greeting before replying (no reset races) and nothing was cancelled
 	certain := positiveSent && sc.ReadFirst && c.CancelMs == 0 && sc.End != "rst"
+	if certain && o.res == nil && o.err != nil && strings.Contains(o.err.Error(), "timeout") {
+		// the probe ran into its own data timeout although the server answers at once: on a busy machine that happens to any
+		// client. No verdict if the machine stalled for a good part of the timeout, or if the miss does not repeat
+		if time.Duration(atomic.LoadInt64(&worstLate)) > T/8 {
+			return &kit.Verdict{Inconclusive: true}
+		}
+		for i := 0; i < 2; i++ {
+			if res, err := s.Scan(ctx, req); res != nil && err == nil {
+				return &kit.Verdict{Inconclusive: true}
+			}
+		}
+	}
 	if certain && o.res == nil {
 		return v.Failf("server answered 05 00 (chunks %+v, then %s) but nothing was reported (err=%v, took %v, data timeout %v)", sc.Chunks, sc.End, o.err, elapsed, T)
 	}
